@@ -7,7 +7,7 @@ import json
 import numpy as np
 
 from harness.common import bitstr, rowsstr, exc_class, coq_bits, coq_list
-from harness import c09_extra, c09_shapes
+from harness import c09_extra, c09_shapes, c09_dtypes
 from harness.c09_shapes import guard, array_problem, int_problem, describe, any_fill, fill
 
 LET = 'IXYZ'
@@ -45,8 +45,14 @@ def run(ctx):
                 'right operands, int64/int32/uint8/int8 entries; exhaustive stackings of 1..2 operators for n<=2; shape '
                 'and integer-ness of every answer compared with the shape-carrying model protocol as well as the values; '
                 'each case evaluated on its own (an exception or a wrong shape is a finding for that case). '
+                'Storage types int8..uint64 x the total a function may accumulate (number of Y / X / Z / non-identity '
+                'factors of a vector and of a whole stacking, number of anticommuting positions of a pair, set bits of a '
+                'packed array) driven to exactly limit-1, limit, limit+1 for the limits 128, 256 (every type, every '
+                'shape: pure, scattered, one row, many short rows, few long rows), beyond them, and 32768, 65536 (%s), '
+                'for bsf_wt, bsf_to_pauli, pauli_to_bsf, pauli_wt, pack/unpack and all four forms of bsp. '
                 'nontrivial = distinct input containing Y and at least two distinct letters'
-                % (ctx.pick(3, 4), ctx.pick(120, 300), ctx.pick(5, 6), ctx.pick(5, 6), ctx.pick(8000, 80000)))
+                % (ctx.pick(3, 4), ctx.pick(120, 300), ctx.pick(5, 6), ctx.pick(5, 6), ctx.pick(8000, 80000),
+                   ctx.pick('16-bit types, one vector and one stacking each', 'all shapes, 8- and 16-bit types')))
     ctx.props_obligations()
 
     req, exp = [], []  # model requests and implementation answers (canonical)
@@ -362,6 +368,9 @@ def run(ctx):
 
     # ---- 8. degenerate operands and result shapes (shape-carrying model protocol) -------------
     c09_shapes.run(ctx, pt)
+
+    # ---- 9. storage types x totals crossing the limits of those types, every array-taking function -----------
+    c09_dtypes.run(ctx, pt)
 
     # ---- correspondence with the extracted model ------------------------------------------
     out = ctx.model('c09', req)
